@@ -160,6 +160,11 @@ SimpleWords(s) == s # <<>> /\ ~IsSpaceB(s[1]) /\ ~IsSpaceB(s[Len(s)])
                   /\ (\A i \in 1..Len(s) : IsSpaceB(s[i]) => s[i] = 32)
                   /\ ~HasSub(s, <<32, 32>>)
 
+\* words: maximal runs of non-space bytes; decided when the only spaces are ASCII ones (no byte that could
+\* begin a Unicode space: U+0085, U+00A0, U+1680, U+2000.., U+3000)
+WordCount(s) == Cardinality({i \in 1..Len(s) : ~IsSpaceB(s[i]) /\ (i = 1 \/ IsSpaceB(s[i - 1]))})
+AsciiSpacesOnly(s) == \A i \in 1..Len(s) : s[i] \notin {194, 225, 226, 227}
+
 RECURSIVE UrlDecode(_)
 \* [ok, s]: ok = FALSE when an escape is malformed
 UrlDecode(s) ==
@@ -172,6 +177,15 @@ UrlDecode(s) ==
     IN  IF Len(s) < 3 \/ hv(s[2]) < 0 \/ hv(s[3]) < 0 THEN [ok |-> FALSE, s |-> <<>>]
         ELSE LET r == UrlDecode(SubSeq(s, 4, Len(s))) IN [ok |-> r.ok, s |-> <<hv(s[2]) * 16 + hv(s[3])>> \o r.s]
   ELSE LET r == UrlDecode(Tail(s)) IN [ok |-> r.ok, s |-> <<Head(s)>> \o r.s]
+
+\* the text without its tags: from each '<' (leftmost first) to the nearest '>' after it, when they are on one line
+RECURSIVE StripHtml(_)
+StripHtml(s) ==
+  LET closes(i) == {j \in (i + 1)..Len(s) : s[j] = 62}
+      opens == {i \in 1..Len(s) : s[i] = 60 /\ closes(i) # {} /\ \A k \in (i + 1)..(MinOf(closes(i)) - 1) : s[k] # 10}
+  IN  IF opens = {} THEN s
+      ELSE LET i == MinOf(opens) j == MinOf(closes(i))
+           IN  SubSeq(s, 1, i - 1) \o StripHtml(SubSeq(s, j + 1, Len(s)))
 
 StringFilter(name, s, args) ==
   LET n == Len(args)
@@ -192,6 +206,7 @@ StringFilter(name, s, args) ==
     [] name = "strip" -> IF n = 0 THEN S(Strip(s)) ELSE FUnspec
     [] name = "lstrip" -> IF n = 0 THEN S(LStrip(s)) ELSE FUnspec
     [] name = "rstrip" -> IF n = 0 THEN S(RStrip(s)) ELSE FUnspec
+    [] name = "strip_html" -> IF n = 0 THEN S(StripHtml(s)) ELSE FUnspec
     [] name = "strip_newlines" -> IF n = 0 THEN S(SelectSeq(s, LAMBDA b : b # 10)) ELSE FUnspec
     [] name = "newline_to_br" -> IF n = 0 THEN S(ReplaceN(s, <<10>>, <<60, 98, 114, 32, 47, 62>>, 0 - 1)) ELSE FUnspec
     [] name = "replace" -> IF strArgs2 /\ a1.s # <<>> THEN S(ReplaceN(s, a1.s, a2.s, 0 - 1)) ELSE FUnspec
@@ -229,7 +244,12 @@ StringFilter(name, s, args) ==
                   THEN S(TruncateChars(s, args[1].v, el)) ELSE FUnspec
          ELSE FUnspec
     [] name = "truncatewords" ->
+         \* a text of at most n words (however they are spaced) fits and stays as it is; cutting is decided for
+         \* words separated by single spaces
          IF n \in {1, 2} /\ args[1].k = "int" /\ (n = 1 \/ args[2].k = "str") /\ args[1].v >= 1
+            /\ AsciiSpacesOnly(s) /\ WordCount(s) <= args[1].v
+         THEN S(s)
+         ELSE IF n \in {1, 2} /\ args[1].k = "int" /\ (n = 1 \/ args[2].k = "str") /\ args[1].v >= 1
             /\ (s = <<>> \/ SimpleWords(s))
          THEN LET el == IF n = 2 THEN args[2].v ELSE <<46, 46, 46>>
                   ws == IF s = <<>> THEN <<>> ELSE SplitOn(s, <<32>>)
@@ -299,7 +319,7 @@ NumericFilter(name, x, args) ==
 
 \* ------------------------------------------------------------- dispatcher
 ArrayFilters == {"compact", "reverse", "first", "last", "concat", "join", "map", "uniq", "sort", "sort_natural"}
-StringFilters == {"append", "prepend", "upcase", "downcase", "capitalize", "strip", "lstrip", "rstrip",
+StringFilters == {"append", "prepend", "upcase", "downcase", "capitalize", "strip", "lstrip", "rstrip", "strip_html",
                   "strip_newlines", "newline_to_br", "replace", "replace_first", "remove", "remove_first",
                   "split", "slice", "truncate", "truncatewords", "escape", "escape_once",
                   "url_encode", "url_decode"}
